@@ -42,6 +42,7 @@ def load():
         del sys.modules[m]
     warnings.filterwarnings("ignore", category=DeprecationWarning)
     warnings.filterwarnings("ignore", message="rail parameter ignored")
+    warnings.filterwarnings("ignore", category=FutureWarning)
     import numpy as np
     import sysloss
     import sysloss.components as comps
